@@ -123,7 +123,7 @@ def main(repo, out):
             notes.append('guard absent (flag off): ' + name)
     arms = ' '.join('| %s => Some %s' % (k, neg[k]) for k in BINOPS if k in neg)
     text = '(* GENERATED by gen/structtable.py from src/ast/mod.rs, src/passes/mod.rs, src/passes/decompile_loop.rs -- do not edit *)\n'
-    text += 'From TV Require Import Base.I32 Model.Ops Model.Structure.\n'
+    text += 'From TV Require Import Base.I32 Model.Structure.\n'
     text += 'Definition gen_negcmp (op : binop) : option binop := match op with %s | _ => None end.\n' % arms
     text += 'Definition gen_pass_order : list spass := [%s].\n' % '; '.join(order)
     text += 'Definition gen_guards : guards := {| %s |}.\n' % '; '.join(
